@@ -46,7 +46,7 @@ inductive Res (α : Type) where
   | err (e : Err) (off : Nat) (alloc : Nat)
   | panic (alloc : Nat)
   | hang
-  deriving Repr
+  deriving Repr, DecidableEq
 
 namespace Res
 def addAlloc (a0 : Nat) : Res α → Res α
@@ -71,13 +71,15 @@ end Res
 
 /-- the safety statement of C10 for one decoding step started at `off`:
     a value or an error – never a panic, never a hang –, the new offset stays inside the buffer and does not
-    move backwards, and the allocation is at most `c` bytes per byte consumed (value) resp. per byte that was
-    left (error) -/
-def Safe (c : Nat) (raw : Bytes) (off : Nat) : Res α → Prop
-  | .ok _ off' a => off ≤ off' ∧ off' ≤ raw.length ∧ a ≤ c * (off' - off)
+    move backwards (a value consumes at least `m` bytes), and the allocation is at most `c` bytes per byte
+    consumed (value) resp. per byte that was left (error) -/
+def SafeN (c m : Nat) (raw : Bytes) (off : Nat) : Res α → Prop
+  | .ok _ off' a => off + m ≤ off' ∧ off' ≤ raw.length ∧ a ≤ c * (off' - off)
   | .err _ off' a => off ≤ off' ∧ off' ≤ raw.length ∧ a ≤ c * (raw.length - off)
   | .panic _ => False
   | .hang => False
+
+abbrev Safe (c : Nat) (raw : Bytes) (off : Nat) (r : Res α) : Prop := SafeN c 0 raw off r
 
 /-! ### reading bytes -/
 
@@ -305,7 +307,7 @@ inductive Frame
   | length (start : Nat) (stored : Int)                 -- lengthField
   | varintLength (start : Nat) (stored : Int) (fieldLen : Nat) -- varintLengthField (+ bytes the varint occupied)
   | crc (start : Nat) (castagnoli : Bool)               -- crc32Field
-  deriving Repr
+  deriving Repr, DecidableEq
 
 /-- `push(&lengthField{})`: lengthField is a dynamicPushDecoder, its `decode` runs at push time -/
 def pushLength (raw : Bytes) (off : Nat) : Res Frame :=
